@@ -373,6 +373,8 @@ def run(index: RepoIndex, rep) -> None:
              'what is refused (C17.R4)', floor=10)
     from .c17 import factory_rules
     factory_rules(index, rep, 'C13.R8')
+    from .wiring import draw_helpers_always_draw
+    draw_helpers_always_draw(index, rep, 'C13.R1')
     rep.rule('C13.R1', 'error discipline: every raise is ValueError; parameters are not '
              'validated by assert', floor=14)
     rep.rule('C13.R2', 'draws of several cells/colours/columns are without replacement', floor=6)
